@@ -165,6 +165,25 @@ pub fn run_case(a: &Args, tag: &'static str, idx: u64, acc: &mut Acc) {
                     acc.violate(Violation { property: "C04", signature: format!("copy-changed-source|{}", sig_tail), summary: "copy_file changed the source bytes".into(), detail: mk(&log, J::Null), order });
                 }
             }
+            // a copy is independent of its source: a later write session on either name must leave the other untouched
+            if !mv {
+                let (written, other, wname) = if rng.chance(1, 2) { (&path, &dst, "source") } else { (&dst, &path, "destination") };
+                let append = rng.chance(1, 2);
+                let r = guard(|| -> Result<(), String> {
+                    let mut w = if append { written.append_file() } else { written.create_file() }.map_err(|e| e.to_string())?;
+                    w.write_all(b"changed after the copy").map_err(|e| e.to_string())?;
+                    w.flush().map_err(|e| e.to_string())?;
+                    Ok(())
+                });
+                log.push(format!("{} on the {} + write + flush + drop => {:?}", if append { "append_file" } else { "create_file" }, wname, r.as_ref().map(|x| x.as_ref().map_err(|e| e.clone())).map_err(|p| p.message.clone())));
+                if matches!(r, Ok(Ok(()))) {
+                    let still = read_all(other, 8192);
+                    if still.as_ref().ok() != Some(&reference) {
+                        acc.violate(Violation { property: "C04", signature: format!("copy-not-independent|written:{}|{}", wname, sig_tail), summary: format!("after copy_file, a {} session on the {} changed the other file: it now holds {:?} instead of {}", if append { "append" } else { "create" }, wname, still.map(|b| bytes_repr(&b)).map_err(|e| e.display), bytes_repr(&reference)), detail: mk(&log, J::Null), order });
+                    }
+                    acc.count("copy_independence_checks", 1);
+                }
+            }
             acc.cell(format!("{}|{}", if mv { "move" } else { "copy" }, route_name));
         }
     }
